@@ -6,6 +6,7 @@
    Gallina term is run against the code (with rational stand-ins substituted for np.exp / np.log in
    the module namespace) and is what the theorems are about.  No proofs in this file. *)
 From V Require Export Common.Num C03.Model.
+From V Require C08.Model.
 Open Scope Q_scope.
 
 (* which members of the pair a specification fixes *)
@@ -102,6 +103,25 @@ Definition itern (E L : Q -> Q) (G Ph : vec -> vec) (rrsolve : vec -> vec -> Q -
   let V := rrsolve z Ks V0 in
   if existsb (fun k => qzerob (1 + V * (k - 1))) Ks then Err EZeroDiv else
   Ok (mkwn (map2 (fun zi k => zi / (1 + V * (k - 1))) z Ks) V (map L Ks)).
+
+(* ---------- the equilibrium objects VLE._setup consults ----------
+   _setup calls BubblePoint(eq_chems, thermo) and DewPoint(eq_chems, thermo); both constructors are memoised per process
+   (BubblePoint.__new__ / DewPoint.__new__, key = (chemical objects, thermo.Gamma, thermo.Phi, thermo.PCF)) and the flash
+   takes gamma, phi and pcf from the BubblePoint instance.  The cache is the one modelled in coq/C08/Model.v
+   (cache_new / cache_run); an instance is represented by the class ids it was built with. *)
+Definition eqobj := (nat * nat * nat)%type.          (* activity-, fugacity-coefficient and Poynting class ids *)
+Definition eq_build (k : C08.Model.key) : res eqobj :=
+  match k with (_, g, p, f) => Ok (g, p, f) end.
+(* the (object identity, instance) pairs handed out along a history of constructor calls *)
+Definition setup_objects (ks : list C08.Model.key) : list (res (nat * eqobj)) :=
+  fst (C08.Model.cache_run eq_build ([], 0%nat) ks).
+Definition eqobj_eqb (a b : res (nat * eqobj)) : bool :=
+  match a, b with
+  | Ok (i, (g, p, f)), Ok (i', (g', p', f')) => Nat.eqb i i' && Nat.eqb g g' && Nat.eqb p p' && Nat.eqb f f'
+  | _, _ => false
+  end.
+Definition setup_objects_check (ks : list C08.Model.key) (expect : list (res (nat * eqobj))) : bool :=
+  list_eqb eqobj_eqb (setup_objects ks) expect.
 
 (* ---------- comparison helpers ---------- *)
 Definition rr2_check (z1 z2 K1 K2 : Q) (expect : option Q) : bool :=
